@@ -3,8 +3,9 @@ State machines: src/interpreter/src/state_machines.rs — `execute_fsm_pipe` (ar
 count and kind check, start state, the validation passes, output kind check) and
 `execute_fsm_pipe_impl` (the loop bounded by `max_steps`: for the current state the first
 arm whose pattern matches; in a guarded arm the first guard that holds; `apply_transitions`).
-A state is its name and its payload (the tuple `(:Name, v1, …)`); payloads are scalars.
-Expressions, patterns and environments are those of Model/Arms.lean.
+A state is its name and its payload (the tuple `(:Name, v1, …)`); a payload field is a scalar or
+an array of scalars (a row vector), matched by a scalar pattern or an array pattern
+`[p … q]`.  Expressions, patterns and environments are those of Model/Arms.lean.
 -/
 import MechVerif.Model.Arms
 namespace MechVerif.Fsm
@@ -12,11 +13,19 @@ open MechVerif.Arms
 
 structure StateV where
   name : String
-  payload : List S
+  payload : List V
 deriving DecidableEq, Repr
 
+/-- an argument of a state: a scalar expression, an array of scalar expressions `[e1 e2 …]`, or a
+    variable standing for a whole value -/
+inductive AE where
+  | sc (e : E)
+  | arr (es : List E)
+  | whole (x : Nat)
+deriving Repr
+
 inductive Target where
-  | next (name : String) (args : List E)     -- `-> :Name(e1, …)`
+  | next (name : String) (args : List AE)     -- `-> :Name(a1, …)`
   | output (e : E)                            -- `=> e`
 deriving Repr
 
@@ -32,15 +41,21 @@ deriving Repr
 
 structure Arm where
   name : String
-  pats : List SP
+  pats : List P
   body : Body
 deriving Repr
 
+/-- kind of an input: a scalar kind or an array of one -/
+inductive IK where
+  | sc (k : NK)
+  | arr (k : NK)
+deriving DecidableEq, Repr
+
 structure Machine where
-  inputs : List (Nat × NK)                   -- declared inputs: variable, kind
+  inputs : List (Nat × IK)                   -- declared inputs: variable, kind
   outKind : Option NK
   declared : List String                      -- the states the specification lists
-  start : String × List E
+  start : String × List AE
   arms : List Arm
 deriving Repr
 
@@ -60,6 +75,18 @@ def evalList (env : Env) : List E → Except FErr (List S)
      | .error err => .error err
      | .ok x => match evalList env es with | .error err => .error err | .ok xs => .ok (x :: xs))
 
+def evalA (env : Env) : AE → Except FErr V
+  | .sc e => (match evalS env e with | .ok s => .ok (.sc s) | .error err => .error err)
+  | .arr es => (match evalList env es with | .ok l => .ok (.arr l) | .error err => .error err)
+  | .whole x => (match env.get x with | some v => .ok v | none => .error (.eval .undef))
+
+def evalAs (env : Env) : List AE → Except FErr (List V)
+  | [] => .ok []
+  | a :: as =>
+    (match evalA env a with
+     | .error err => .error err
+     | .ok x => match evalAs env as with | .error err => .error err | .ok xs => .ok (x :: xs))
+
 inductive StepR where
   | moved (s : StateV) (env : Env)
   | out (v : S) (env : Env)
@@ -68,16 +95,37 @@ deriving Repr
 
 /-- `apply_transitions` for one target -/
 def applyTarget (env : Env) : Target → Except FErr StepR
-  | .next name args => (match evalList env args with | .ok vs => .ok (.moved ⟨name, vs⟩ env) | .error e => .error e)
+  | .next name args => (match evalAs env args with | .ok vs => .ok (.moved ⟨name, vs⟩ env) | .error e => .error e)
   | .output e => (match evalS env e with | .ok v => .ok (.out v env) | .error err => .error err)
 
+def varsOfSP : SP → List Nat
+  | .bind x => [x]
+  | _ => []
+
+/-- `collect_pattern_variable_ids`: prefix and suffix of an array pattern alike -/
+def varsOfP : P → List Nat
+  | .sp p => varsOfSP p
+  | .tup ps => ps.flatMap varsOfSP
+  | .arr pre _ suf => pre.flatMap varsOfSP ++ suf.flatMap varsOfSP
+  | .enm _ (some p) => varsOfSP p
+  | .enm _ none => []
+
 /-- `clear_pattern_bindings`: the variables of the arm's pattern are rebound afresh -/
-def clearVars (pats : List SP) (env : Env) : Env :=
-  env.filter (fun p => !(pats.any (fun q => match q with | .bind x => x == p.1 | _ => false)))
+def clearVars (pats : List P) (env : Env) : Env :=
+  env.filter (fun p => !((pats.flatMap varsOfP).contains p.1))
+
+/-- payload fields left to right, threading the bindings -/
+def matchPs : List P → List V → Env → Option Env
+  | [], [], env => some env
+  | p :: ps, v :: vs, env =>
+    (match matchP false p v env with
+     | some env' => matchPs ps vs env'
+     | none => none)
+  | _, _, _ => none
 
 /-- does the arm's pattern `:Name(p1, …)` match the state? -/
 def armMatch (arm : Arm) (s : StateV) (env : Env) : Option Env :=
-  if arm.name = s.name ∧ arm.pats.length = s.payload.length then matchSPs false arm.pats s.payload (clearVars arm.pats env) else none
+  if arm.name = s.name ∧ arm.pats.length = s.payload.length then matchPs arm.pats s.payload (clearVars arm.pats env) else none
 
 /-- the first guard that holds (a guard must evaluate to a bool) -/
 def firstGuard (env : Env) : List Guard → Except FErr (Option Guard)
@@ -149,18 +197,26 @@ def validate (m : Machine) : Except FErr Unit :=
   if !names.contains m.start.1 then .error .undefinedState else
   if !((targets m).all names.contains) then .error .undefinedState else .ok ()
 
-def bindInputs : List (Nat × NK) → List S → Env → Except FErr Env
+/-- the kind of an argument: a number, or a non-empty array of numbers of one kind -/
+def kindOfV : V → Option IK
+  | .sc s => (kindOfS s).map .sc
+  | .arr (x :: xs) => (match kindOfS x with
+      | some k => if xs.all (fun y => kindOfS y == some k) then some (.arr k) else none
+      | none => none)
+  | _ => none
+
+def bindInputs : List (Nat × IK) → List V → Env → Except FErr Env
   | [], [], env => .ok env
-  | (x, k) :: ds, a :: as, env => if kindOfS a = some k then bindInputs ds as ((x, .sc a) :: env) else .error .argKind
+  | (x, k) :: ds, a :: as, env => if kindOfV a = some k then bindInputs ds as ((x, a) :: env) else .error .argKind
   | _, _, _ => .error .arity
 
 /-- `execute_fsm_pipe` -/
-def invoke (m : Machine) (maxSteps : Nat) (args : List S) : Except FErr Result :=
+def invoke (m : Machine) (maxSteps : Nat) (args : List V) : Except FErr Result :=
   if m.inputs.length ≠ args.length then .error .arity else
   match bindInputs m.inputs args [] with
   | .error e => .error e
   | .ok env =>
-    match evalList env m.start.2 with
+    match evalAs env m.start.2 with
     | .error e => .error e
     | .ok vs =>
       match validate m with
